@@ -418,6 +418,10 @@ class Lib:
     def b_tuple(self, I, xs=()):
         if isinstance(xs, (list, tuple)):
             return tuple(xs)
+        if isinstance(xs, GenExp):
+            items = self.comprehension(I, xs.node, xs.scope, 'list')
+            if isinstance(items, list):
+                return tuple(items)
         raise Undecided('tuple() of symbolic')
 
     def b_chain(self, I, *parts):
